@@ -21,6 +21,9 @@ package verifharness
 //   bscasc name | ethasc name
 //   bypath-get src dst | bypath-iter src dst     (GetAllPacketCommitmentsByPath / IteratePacketCommitmentByPath)
 //   pget fam src dst seq | phas fam src dst seq | nget src dst    (point getters Get* / Has* after Set*)
+//   key2 <Func> <argsA> | <argsB>   (two keys alive at once: aliasing)   | iterkeyrt tm|bsc|eth rev h | hfk tm|bsc|eth key
+//   heightstr rev h | parseheight s | tmgetiter name rev h | bscsigner name rev h val | bscsigners name | bscdelsigners name
+//   ethsetroot name height root hash | ethgetroot name root height | discard <op>   (op on a dropped cache context)
 //   grpc commit|ack src dst                      (query server PacketCommitments / PacketAcknowledgements)
 
 import (
@@ -40,6 +43,7 @@ import (
 	sdk "github.com/cosmos/cosmos-sdk/types"
 	"github.com/cosmos/cosmos-sdk/types/query"
 	"github.com/ethereum/go-ethereum/accounts/abi"
+	"github.com/ethereum/go-ethereum/common"
 	tmproto "github.com/tendermint/tendermint/proto/tendermint/types"
 
 	"github.com/teleport-network/teleport/app"
@@ -70,6 +74,8 @@ type c19World struct {
 	clients map[string]bool
 	tmH     map[string][]([2]uint64) // per client name
 	evmH    map[string][]([2]uint64)
+	signers map[string]map[string]string // client -> "rev-h" -> validator hex (bsc recent signers)
+	ethRoot map[string]string            // client:root:height -> expected value hex
 	// global injectivity tables
 	packed  map[string]string // struct + packed hex -> canonical value text
 	commits map[string]string // commitment hex -> packed hex
@@ -109,6 +115,8 @@ func (w *c19World) reset() {
 	w.clients = map[string]bool{}
 	w.tmH = map[string][]([2]uint64){}
 	w.evmH = map[string][]([2]uint64){}
+	w.signers = map[string]map[string]string{}
+	w.ethRoot = map[string]string{}
 }
 
 func c19U64(s string) uint64 {
@@ -292,6 +300,135 @@ func c19HeightsSorted(hs [][2]uint64) []string {
 
 // ---- the ops -------------------------------------------------------------------------------------------
 
+func (w *c19World) storeDigest() string {
+	h := sha256.New()
+	it := w.store().Iterator(nil, nil)
+	defer it.Close()
+	n := 0
+	for ; it.Valid(); it.Next() {
+		h.Write([]byte(strconv.Itoa(len(it.Key())) + ":"))
+		h.Write(it.Key())
+		h.Write([]byte(strconv.Itoa(len(it.Value())) + ":"))
+		h.Write(it.Value())
+		n++
+	}
+	return fmt.Sprintf("%d keys %x", n, h.Sum(nil)[:8])
+}
+
+type c19Book struct {
+	dirty   bool
+	written map[string]map[string]string
+	cons    map[string]bool
+	clients map[string]bool
+	tmH     map[string][]([2]uint64)
+	evmH    map[string][]([2]uint64)
+	signers map[string]map[string]string
+	ethRoot map[string]string
+}
+
+func c19CopyMM(m map[string]map[string]string) map[string]map[string]string {
+	o := map[string]map[string]string{}
+	for k, v := range m {
+		o[k] = map[string]string{}
+		for a, b := range v {
+			o[k][a] = b
+		}
+	}
+	return o
+}
+
+func (w *c19World) snapshotBook() c19Book {
+	b := c19Book{dirty: w.dirty, written: c19CopyMM(w.written), signers: c19CopyMM(w.signers), cons: map[string]bool{}, clients: map[string]bool{},
+		tmH: map[string][]([2]uint64){}, evmH: map[string][]([2]uint64){}, ethRoot: map[string]string{}}
+	for k, v := range w.cons {
+		b.cons[k] = v
+	}
+	for k, v := range w.clients {
+		b.clients[k] = v
+	}
+	for k, v := range w.tmH {
+		b.tmH[k] = append([]([2]uint64){}, v...)
+	}
+	for k, v := range w.evmH {
+		b.evmH[k] = append([]([2]uint64){}, v...)
+	}
+	for k, v := range w.ethRoot {
+		b.ethRoot[k] = v
+	}
+	return b
+}
+
+func (w *c19World) restoreBook(b c19Book) {
+	w.dirty, w.written, w.cons, w.clients, w.tmH, w.evmH, w.signers, w.ethRoot = b.dirty, b.written, b.cons, b.clients, b.tmH, b.evmH, b.signers, b.ethRoot
+}
+
+// c19BuildKey calls the real key function `fn` on op-text arguments
+func c19BuildKey(fn string, a []string) []byte {
+	var k []byte
+	s := func(i int) string { return string(unhx(a[i])) }
+	n := func(i int) uint64 { return c19U64(a[i]) }
+	h := func(i int) exported.Height { return clienttypes.NewHeight(c19U64(a[i]), c19U64(a[i+1])) }
+	switch fn {
+	case "FullClientPath":
+		k = []byte(host.FullClientPath(s(0), s(1)))
+	case "FullClientKey":
+		k = host.FullClientKey(s(0), unhx(a[1]))
+	case "FullClientStateKey":
+		k = host.FullClientStateKey(s(0))
+	case "ClientStateKey":
+		k = host.ClientStateKey()
+	case "FullConsensusStateKey":
+		k = host.FullConsensusStateKey(s(0), h(1))
+	case "ConsensusStatePath":
+		k = []byte(host.ConsensusStatePath(h(0)))
+	case "ConsensusStateKey":
+		k = host.ConsensusStateKey(h(0))
+	case "NextSequenceSendPath":
+		k = []byte(host.NextSequenceSendPath(s(0), s(1)))
+	case "NextSequenceSendKey":
+		k = host.NextSequenceSendKey(s(0), s(1))
+	case "PacketCommitmentPath":
+		k = []byte(host.PacketCommitmentPath(s(0), s(1), n(2)))
+	case "PacketCommitmentKey":
+		k = host.PacketCommitmentKey(s(0), s(1), n(2))
+	case "PacketCommitmentPrefixPath":
+		k = []byte(host.PacketCommitmentPrefixPath(s(0), s(1)))
+	case "PacketRelayerPath":
+		k = []byte(host.PacketRelayerPath(s(0), s(1), n(2)))
+	case "PacketRelayerKey":
+		k = host.PacketRelayerKey(s(0), s(1), n(2))
+	case "PacketRelayerPrefixPath":
+		k = []byte(host.PacketRelayerPrefixPath(s(0), s(1)))
+	case "PacketAcknowledgementPath":
+		k = []byte(host.PacketAcknowledgementPath(s(0), s(1), n(2)))
+	case "PacketAcknowledgementKey":
+		k = host.PacketAcknowledgementKey(s(0), s(1), n(2))
+	case "PacketAcknowledgementPrefixPath":
+		k = []byte(host.PacketAcknowledgementPrefixPath(s(0), s(1)))
+	case "PacketReceiptPath":
+		k = []byte(host.PacketReceiptPath(s(0), s(1), n(2)))
+	case "PacketReceiptKey":
+		k = host.PacketReceiptKey(s(0), s(1), n(2))
+	case "PacketReceiptPrefixPath":
+		k = []byte(host.PacketReceiptPrefixPath(s(0), s(1)))
+	case "tm.ProcessedTimeKey":
+		k = tmtypes.ProcessedTimeKey(h(0))
+	case "tm.IterationKey":
+		k = tmtypes.IterationKey(h(0))
+	case "eth.EthHeaderIndexPath":
+		k = []byte(ethtypes.EthHeaderIndexPath(common.BytesToHash(unhx(a[0])), n(1)))
+	case "eth.EthHeaderIndexKey":
+		k = ethtypes.EthHeaderIndexKey(common.BytesToHash(unhx(a[0])), n(1))
+	case "eth.EthRootMainPath":
+		k = []byte(ethtypes.EthRootMainPath(common.BytesToHash(unhx(a[0])), n(1)))
+	case "eth.EthRootMainKey":
+		k = ethtypes.EthRootMainKey(common.BytesToHash(unhx(a[0])), n(1))
+	default:
+		panic("unknown key function " + fn)
+	}
+	return k
+}
+
 func (w *c19World) apply(r *Rec, op string) string {
 	f := strings.Fields(op)
 	w.hist = append(w.hist, op)
@@ -375,60 +512,18 @@ func (w *c19World) apply(r *Rec, op string) string {
 		return "ok " + strings.Join(c19Show(v), " ")
 
 	case "key":
-		var k []byte
 		a := f[2:]
 		s := func(i int) string { return string(unhx(a[i])) }
-		n := func(i int) uint64 { return c19U64(a[i]) }
-		h := func(i int) exported.Height { return clienttypes.NewHeight(c19U64(a[i]), c19U64(a[i+1])) }
-		switch f[1] {
-		case "FullClientPath":
-			k = []byte(host.FullClientPath(s(0), s(1)))
-		case "FullClientKey":
-			k = host.FullClientKey(s(0), unhx(a[1]))
-		case "FullClientStateKey":
-			k = host.FullClientStateKey(s(0))
-		case "ClientStateKey":
-			k = host.ClientStateKey()
-		case "FullConsensusStateKey":
-			k = host.FullConsensusStateKey(s(0), h(1))
-		case "ConsensusStatePath":
-			k = []byte(host.ConsensusStatePath(h(0)))
-		case "ConsensusStateKey":
-			k = host.ConsensusStateKey(h(0))
-		case "NextSequenceSendPath":
-			k = []byte(host.NextSequenceSendPath(s(0), s(1)))
-		case "NextSequenceSendKey":
-			k = host.NextSequenceSendKey(s(0), s(1))
-		case "PacketCommitmentPath":
-			k = []byte(host.PacketCommitmentPath(s(0), s(1), n(2)))
-		case "PacketCommitmentKey":
-			k = host.PacketCommitmentKey(s(0), s(1), n(2))
-		case "PacketCommitmentPrefixPath":
-			k = []byte(host.PacketCommitmentPrefixPath(s(0), s(1)))
-		case "PacketRelayerPath":
-			k = []byte(host.PacketRelayerPath(s(0), s(1), n(2)))
-		case "PacketRelayerKey":
-			k = host.PacketRelayerKey(s(0), s(1), n(2))
-		case "PacketRelayerPrefixPath":
-			k = []byte(host.PacketRelayerPrefixPath(s(0), s(1)))
-		case "PacketAcknowledgementPath":
-			k = []byte(host.PacketAcknowledgementPath(s(0), s(1), n(2)))
-		case "PacketAcknowledgementKey":
-			k = host.PacketAcknowledgementKey(s(0), s(1), n(2))
-		case "PacketAcknowledgementPrefixPath":
-			k = []byte(host.PacketAcknowledgementPrefixPath(s(0), s(1)))
-		case "PacketReceiptPath":
-			k = []byte(host.PacketReceiptPath(s(0), s(1), n(2)))
-		case "PacketReceiptKey":
-			k = host.PacketReceiptKey(s(0), s(1), n(2))
-		case "PacketReceiptPrefixPath":
-			k = []byte(host.PacketReceiptPrefixPath(s(0), s(1)))
-		case "tm.ProcessedTimeKey":
-			k = tmtypes.ProcessedTimeKey(h(0))
-		case "tm.IterationKey":
-			k = tmtypes.IterationKey(h(0))
-		default:
-			r.t.Fatalf("unknown key function %s", f[1])
+		k := c19BuildKey(f[1], a)
+		// ---- oracle: the sequence is part of the key as its UNSIGNED decimal text (what the counterparty contract hashes) ----
+		if c19KeyFuncs[f[1]] == "ssn" {
+			r.Count("key.sequence-text")
+			if c19U64(a[2]) >= 1<<63 {
+				r.Count("key.sequence-ge-2^63")
+			}
+			if !bytes.HasSuffix(k, []byte("/"+a[2])) {
+				w.find(r, "C19:key-sequence-text:"+f[1], "the key does not end in '/' followed by the unsigned decimal sequence", hx(k), "…/"+a[2])
+			}
 		}
 		// ---- oracle: distinct arguments (valid names) => distinct keys ----
 		valid := true
@@ -544,6 +639,17 @@ func (w *c19World) apply(r *Rec, op string) string {
 			m[hxs(src)+":"+hxs(dst)+":"+f[4]] = hx(val)
 		}
 		r.Count("hist.pset")
+		if seq >= 1<<63 {
+			r.Count("pset.seq-ge-2^63")
+		}
+		if c19ValidName(dst) {
+			switch c := dst[len(dst)-1]; {
+			case strings.IndexByte("sequences", c) >= 0:
+				r.Count("pset.dst-ends-in-seq-letter")
+			case !(c >= 'a' && c <= 'z' || c >= 'A' && c <= 'Z' || c >= '0' && c <= '9'):
+				r.Count("pset.dst-ends-in-punct")
+			}
+		}
 		return "ok"
 
 	case "nset":
@@ -864,6 +970,238 @@ func (w *c19World) apply(r *Rec, op string) string {
 		r.Nontrivial(op + "@" + strconv.Itoa(len(w.hist)))
 		return out
 
+	case "discard":
+		// the inner op runs on a cache context that is dropped: nothing may change
+		inner := strings.Join(f[1:], " ")
+		before := w.storeDigest()
+		saveCtx, saveBook := w.ctx, w.snapshotBook()
+		w.ctx, _ = saveCtx.CacheContext()
+		w.hist = w.hist[:len(w.hist)-1]
+		out := w.apply(r, inner)
+		w.hist[len(w.hist)-1] = op
+		w.ctx = saveCtx
+		w.restoreBook(saveBook)
+		r.Count("discard.ops")
+		if after := w.storeDigest(); after != before {
+			w.find(r, "C19:discarded-write-visible", "an operation executed on a dropped cache context changed the store", after, before)
+		}
+		return out
+
+	case "key2":
+		sepIdx := -1
+		for i, x := range f {
+			if x == "|" {
+				sepIdx = i
+			}
+		}
+		a, b := f[2:sepIdx], f[sepIdx+1:]
+		k1 := c19BuildKey(f[1], a)
+		s1 := append([]byte{}, k1...)
+		k2 := c19BuildKey(f[1], b)
+		s2 := append([]byte{}, k2...)
+		o1 := hx(k1)
+		k3 := c19BuildKey(f[1], a)
+		o2 := hx(k2)
+		r.Count("key2.ops")
+		if !bytes.Equal(k1, s1) || !bytes.Equal(k2, s2) || !bytes.Equal(k3, s1) {
+			w.find(r, "C19:key-aliasing:"+f[1], "a key returned by a key builder changes when the builder is called again (shared backing array)",
+				"first key now "+hx(k1)+", second key now "+hx(k2), "first key "+hx(s1)+", second key "+hx(s2))
+		}
+		return o1 + " " + o2
+
+	case "heightstr":
+		h := clienttypes.NewHeight(c19U64(f[1]), c19U64(f[2]))
+		txt := h.String()
+		r.Count("heighttext.ops")
+		if c19U64(f[1]) >= 1<<63 || c19U64(f[2]) >= 1<<63 {
+			r.Count("heighttext.ge-2^63")
+		}
+		back, err := clienttypes.ParseHeight(txt)
+		if err != nil || !back.EQ(h) {
+			w.find(r, "C19:height-text-roundtrip", "ParseHeight(Height.String()) does not return the height", fmt.Sprintf("%q -> %v %v", txt, back, err), f[1]+"-"+f[2])
+		}
+		return hxs(txt)
+
+	case "parseheight":
+		h, err := clienttypes.ParseHeight(string(unhx(f[1])))
+		if err != nil {
+			return "err"
+		}
+		return fmt.Sprintf("ok %d-%d", h.RevisionNumber, h.RevisionHeight)
+
+	case "iterkeyrt", "hfk":
+		var key []byte
+		if f[0] == "iterkeyrt" {
+			h := clienttypes.NewHeight(c19U64(f[2]), c19U64(f[3]))
+			if f[1] == "tm" {
+				key = tmtypes.IterationKey(h)
+			} else {
+				key = host.ConsensusStateKey(h)
+			}
+		} else {
+			key = unhx(f[2])
+		}
+		var got exported.Height
+		pan, msg := safely(func() {
+			switch f[1] {
+			case "tm":
+				got = tmtypes.GetHeightFromIterationKey(key)
+			case "bsc":
+				got = bsctypes.GetHeightFromIterationKey(key)
+			case "eth":
+				got = ethtypes.GetHeightFromIterationKey(key)
+			}
+		})
+		if f[0] == "iterkeyrt" {
+			r.Count("iterkeyrt.ops")
+			if c19U64(f[2]) != 0 {
+				r.Count("iterkeyrt.revision-nonzero")
+			}
+			want := f[2] + "-" + f[3]
+			if pan {
+				w.find(r, "C19:iterkey-height-roundtrip:"+f[1], "GetHeightFromIterationKey panics on a key built by the key builder: "+msg, "panic", want)
+			} else if fmt.Sprintf("%d-%d", got.GetRevisionNumber(), got.GetRevisionHeight()) != want {
+				w.find(r, "C19:iterkey-height-roundtrip:"+f[1], "GetHeightFromIterationKey does not return the height the key was built for",
+					fmt.Sprintf("%d-%d", got.GetRevisionNumber(), got.GetRevisionHeight()), want)
+			}
+		}
+		if pan {
+			return "panic"
+		}
+		return fmt.Sprintf("ok %d-%d", got.GetRevisionNumber(), got.GetRevisionHeight())
+
+	case "tmgetiter":
+		h := clienttypes.NewHeight(c19U64(f[2]), c19U64(f[3]))
+		cst := w.app.XIBCKeeper.ClientKeeper.ClientStore(w.ctx, string(unhx(f[1])))
+		v := tmtypes.GetIterationKey(cst, h)
+		out := "none"
+		if v != nil {
+			out = w.kindOf(v)
+		}
+		if !w.dirty {
+			wrote := false
+			for _, x := range w.tmH[f[1]] {
+				if x == [2]uint64{c19U64(f[2]), c19U64(f[3])} {
+					wrote = true
+				}
+			}
+			want := "none"
+			if wrote {
+				want = hx(host.ConsensusStateKey(h))
+			}
+			r.Count("oracle.stored-key-value")
+			if out != want {
+				w.find(r, "C19:stored-key-value-readback:tm.IterationKey", "the consensus-state key stored as the VALUE of an iteration entry is not the key of that height", out, want)
+			}
+		}
+		return out
+
+	case "bscsigner":
+		name := string(unhx(f[1]))
+		cst := w.app.XIBCKeeper.ClientKeeper.ClientStore(w.ctx, name)
+		bsctypes.SetSigner(cst, bsctypes.Signer{Height: clienttypes.NewHeight(c19U64(f[2]), c19U64(f[3])), Validator: unhx(f[4])})
+		if !c19ValidName(name) {
+			w.dirty = true
+		}
+		if w.signers[f[1]] == nil {
+			w.signers[f[1]] = map[string]string{}
+		}
+		w.signers[f[1]][f[2]+"-"+f[3]] = hx(unhx(f[4]))
+		r.Count("hist.bscsigner")
+		if c19U64(f[2]) >= 1<<63 || c19U64(f[3]) >= 1<<63 {
+			r.Count("bscsigner.ge-2^63")
+		}
+		return "ok"
+
+	case "bscsigners":
+		cst := w.app.XIBCKeeper.ClientKeeper.ClientStore(w.ctx, string(unhx(f[1])))
+		var ss []bsctypes.Signer
+		var err error
+		pan, msg := safely(func() { ss, err = bsctypes.GetRecentSigners(cst) })
+		var out []string
+		for _, x := range ss {
+			out = append(out, fmt.Sprintf("%d-%d:%s", x.Height.RevisionNumber, x.Height.RevisionHeight, w.kindOf(x.Validator)))
+		}
+		if !w.dirty {
+			r.Count("oracle.bsc-signer-readback")
+			switch {
+			case pan:
+				w.find(r, "C19:bsc-signer-readback-panic", "GetRecentSigners panics on keys written by SetSigner: "+msg, "panic", sortedKV(w.signers[f[1]]))
+			case err != nil:
+				w.find(r, "C19:bsc-signer-readback-error", "GetRecentSigners cannot read back the keys written by SetSigner: "+err.Error(), "error", sortedKV(w.signers[f[1]]))
+			case !c19SetEq(out, w.signers[f[1]]):
+				w.find(r, "C19:bsc-signer-readback", "recent signers are not read back at the heights they were written for", strings.Join(out, ","), sortedKV(w.signers[f[1]]))
+			}
+		}
+		if pan {
+			r.Count("iter.panic")
+			return "panic"
+		}
+		if err != nil {
+			return "err"
+		}
+		return c19OkList(out)
+
+	case "bscdelsigners":
+		cst := w.app.XIBCKeeper.ClientKeeper.ClientStore(w.ctx, string(unhx(f[1])))
+		var err error
+		pan, msg := safely(func() { err = bsctypes.DeleteAllSigner(cst) })
+		if !w.dirty {
+			left := 0
+			it := sdk.KVStorePrefixIterator(cst, []byte(bsctypes.PrefixKeyRecentSingers))
+			for ; it.Valid(); it.Next() {
+				left++
+			}
+			it.Close()
+			switch {
+			case pan:
+				w.find(r, "C19:bsc-signer-delete-panic", "DeleteAllSigner panics on keys written by SetSigner: "+msg, "panic", "all signer entries deleted")
+			case err != nil:
+				w.find(r, "C19:bsc-signer-delete-error", "DeleteAllSigner cannot parse the keys written by SetSigner: "+err.Error(), "error", "all signer entries deleted")
+			case left != 0:
+				w.find(r, "C19:bsc-signer-delete-leftover", "DeleteAllSigner leaves entries written by SetSigner behind", fmt.Sprint(left)+" entries left", "0 entries left")
+			}
+		}
+		if pan {
+			r.Count("iter.panic")
+			return "panic"
+		}
+		if err != nil {
+			return "err"
+		}
+		delete(w.signers, f[1])
+		return "ok"
+
+	case "ethsetroot":
+		name := string(unhx(f[1]))
+		cst := w.app.XIBCKeeper.ClientKeeper.ClientStore(w.ctx, name)
+		root, hh := common.BytesToHash(unhx(f[3])), common.BytesToHash(unhx(f[4]))
+		ethtypes.SetEthConsensusRoot(cst, c19U64(f[2]), root, hh)
+		if !c19ValidName(name) {
+			w.dirty = true
+		}
+		w.ethRoot[f[1]+":"+f[3]+":"+f[2]] = hx(ethtypes.EthHeaderIndexKey(hh, c19U64(f[2])))
+		return "ok"
+
+	case "ethgetroot":
+		cst := w.app.XIBCKeeper.ClientKeeper.ClientStore(w.ctx, string(unhx(f[1])))
+		v := ethtypes.GetHeaderIndexKeyByEthConsensusRoot(cst, common.BytesToHash(unhx(f[2])), c19U64(f[3]))
+		out := "none"
+		if v != nil {
+			out = w.kindOf(v)
+		}
+		if !w.dirty {
+			want, ok := w.ethRoot[f[1]+":"+f[2]+":"+f[3]]
+			if !ok {
+				want = "none"
+			}
+			r.Count("oracle.eth-root-readback")
+			if out != want {
+				w.find(r, "C19:point-readback:eth.RootMain", "the header-index key stored under an eth main-root key is not read back", out, want)
+			}
+		}
+		return out
+
 	case "iseq":
 		var out []string
 		var seqs []packettypes.PacketSequence
@@ -1029,7 +1367,7 @@ func (g c19Gen) randBytes(n int) []byte {
 }
 
 func (g c19Gen) u64() uint64 {
-	edge := []uint64{0, 1, 7, 46, 47, 48, 255, 256, 303, 0x2f00, 0x2f2f, 1<<32 - 1, 1 << 32, 1<<63 - 1, 1 << 63, 1<<64 - 1, 0x2f2f2f2f2f2f2f2f, 0x002f00ff2f00ff2f, 0xff00000000000000, 0x2f}
+	edge := []uint64{0, 1, 7, 46, 47, 48, 255, 256, 303, 0x2f00, 0x2f2f, 1<<31 - 1, 1 << 31, 1<<31 + 1, 1<<32 - 1, 1 << 32, 1<<32 + 1, 1<<53 - 1, 1 << 53, 1<<53 + 1, 1<<63 - 1, 1 << 63, 1<<63 + 1, 1<<64 - 2, 1<<64 - 1, 10000000000000000000, 9999999999999999999, 0x2f2f2f2f2f2f2f2f, 0x002f00ff2f00ff2f, 0xff00000000000000, 0x2f}
 	switch g.n(4) {
 	case 0:
 		return g.r.Rng.Uint64()
@@ -1187,16 +1525,11 @@ var c19KeyFuncs = map[string]string{ // function -> parameter kinds: s = name, p
 	"PacketCommitmentPrefixPath": "ss", "PacketRelayerPath": "ssn", "PacketRelayerKey": "ssn", "PacketRelayerPrefixPath": "ss", "PacketAcknowledgementPath": "ssn",
 	"PacketAcknowledgementKey": "ssn", "PacketAcknowledgementPrefixPath": "ss", "PacketReceiptPath": "ssn", "PacketReceiptKey": "ssn", "PacketReceiptPrefixPath": "ss",
 	"tm.ProcessedTimeKey": "h", "tm.IterationKey": "h",
+	"eth.EthHeaderIndexPath": "xn", "eth.EthHeaderIndexKey": "xn", "eth.EthRootMainPath": "xn", "eth.EthRootMainKey": "xn",
 }
 
-func (g c19Gen) keyOp() string {
-	names := make([]string, 0, len(c19KeyFuncs))
-	for n := range c19KeyFuncs {
-		names = append(names, n)
-	}
-	sort.Strings(names)
-	fn := names[g.n(len(names))]
-	parts := []string{"key", fn}
+func (g c19Gen) keyArgs(fn string) []string {
+	var parts []string
 	for _, k := range c19KeyFuncs[fn] {
 		switch k {
 		case 's':
@@ -1207,9 +1540,122 @@ func (g c19Gen) keyOp() string {
 			parts = append(parts, strconv.FormatUint(g.u64(), 10))
 		case 'h':
 			parts = append(parts, strconv.FormatUint(g.u64(), 10), strconv.FormatUint(g.u64(), 10))
+		case 'x':
+			parts = append(parts, hx(g.randBytes(32)))
 		}
 	}
-	return strings.Join(parts, " ")
+	return parts
+}
+
+func (g c19Gen) keyFn() string {
+	names := make([]string, 0, len(c19KeyFuncs))
+	for n := range c19KeyFuncs {
+		names = append(names, n)
+	}
+	sort.Strings(names)
+	return names[g.n(len(names))]
+}
+
+func (g c19Gen) keyOp() string {
+	fn := g.keyFn()
+	return strings.Join(append([]string{"key", fn}, g.keyArgs(fn)...), " ")
+}
+
+// two keys of the same builder alive at the same time
+func (g c19Gen) key2Op(fn string) string {
+	if fn == "" {
+		fn = g.keyFn()
+	}
+	a := g.keyArgs(fn)
+	b := g.keyArgs(fn)
+	if g.n(4) == 0 {
+		b = append([]string{}, a...)
+	}
+	return strings.Join(append(append(append([]string{"key2", fn}, a...), "|"), b...), " ")
+}
+
+// every character IsValidID allows, as the LAST character of a valid name
+func c19EndNames(base string) []string {
+	var out []string
+	for c := byte(0x21); c < 0x7f; c++ {
+		if host.SrcChainValidator(base+string([]byte{c})) == nil {
+			out = append(out, base+string([]byte{c}))
+		}
+	}
+	return out
+}
+
+// histories over names that end in every allowed character (the letters of "sequences", '-', '.', … included),
+// read back through every packet iterator and the per-path scans
+func (g c19Gen) endNameHistory() []string {
+	h := []string{"reset"}
+	dsts := c19EndNames([]string{"xy", "net-", "c", "se"}[g.n(4)] + "q")
+	srcs := c19EndNames("ab")
+	for i, k := 0, 6+g.n(10); i < k; i++ {
+		s, d := srcs[g.n(len(srcs))], dsts[g.n(len(dsts))]
+		if g.n(3) == 0 {
+			s, d = d, s
+		}
+		fam := []string{"commit", "ack", "receipt"}[g.n(3)]
+		h = append(h, fmt.Sprintf("pset %s %s %s %d %s", fam, hxs(s), hxs(d), c19Seqs[g.n(len(c19Seqs))], hx(append([]byte{2}, g.randBytes(g.n(8))...))))
+		if g.n(3) == 0 {
+			h = append(h, fmt.Sprintf("nset %s %s %d", hxs(s), hxs(d), g.u64()))
+		}
+		if g.n(4) == 0 {
+			h = append(h, "bypath-iter "+hxs(s)+" "+hxs(d), "grpc commit "+hxs(s)+" "+hxs(d))
+		}
+	}
+	return append(h, "ihash commit", "ihash ack", "ihash receipt", "iseq")
+}
+
+// text forms and binary forms of heights through their builders and parsers; recent-signer keys; values that are keys
+func (g c19Gen) heightHistory(clean bool) []string {
+	h := []string{"reset"}
+	nm := func() string { return hxs(g.name(clean)) }
+	names := []string{nm(), nm()}
+	type hh struct{ r, h uint64 }
+	var hs []hh
+	for i, k := 0, 2+g.n(6); i < k; i++ {
+		x := hh{g.u64(), g.u64()}
+		if g.n(3) == 0 {
+			x.r = 0
+		}
+		hs = append(hs, x)
+		n := names[g.n(2)]
+		switch g.n(5) {
+		case 0, 1:
+			h = append(h, fmt.Sprintf("bscsigner %s %d %d %s", n, x.r, x.h, hx(g.randBytes(20))))
+		case 2:
+			h = append(h, fmt.Sprintf("tmset %s %d %d %d", n, x.r, x.h, g.u64()))
+		case 3:
+			h = append(h, fmt.Sprintf("ethsetroot %s %d %s %s", n, x.h, hx(g.randBytes(32)), hx(g.randBytes(32))))
+			h = append(h, fmt.Sprintf("ethgetroot %s %s %d", n, strings.Fields(h[len(h)-1])[3], x.h), fmt.Sprintf("ethgetroot %s %s %d", n, hx(g.randBytes(32)), x.h))
+		default:
+			h = append(h, fmt.Sprintf("discard bscsigner %s %d %d %s", n, x.r, x.h, hx(g.randBytes(4))))
+		}
+	}
+	if !clean {
+		n := string(unhx(names[0]))
+		raws := []string{"recentSingers", "recentSingers/abc", "recentSingersX/1-2", "recentSingers/1-2/3", "recentSingers/007-1", "recentSingers/1-2-3",
+			"recentSingers/-1-2", "recentSingers/18446744073709551616-1", "recentSingers/", "recentSingers/5"}
+		for i, k := 0, 1+g.n(2); i < k; i++ {
+			h = append(h, "raw "+hxs("clients/"+n+"/"+raws[g.n(len(raws))])+" ff")
+		}
+	}
+	for _, n := range names {
+		h = append(h, "bscsigners "+n)
+		for _, x := range hs {
+			if g.n(2) == 0 {
+				h = append(h, fmt.Sprintf("tmgetiter %s %d %d", n, x.r, x.h))
+			}
+		}
+		h = append(h, "tmasc "+n, "tmpt "+n, "bscasc "+n, "ethasc "+n)
+		if g.n(2) == 0 {
+			h = append(h, "discard bscdelsigners "+n, "bscsigners "+n)
+		}
+		h = append(h, "bscdelsigners "+n, "bscsigners "+n)
+	}
+	return append(h, "dump")
 }
 
 func (g c19Gen) rawKey() (string, string) {
@@ -1499,6 +1945,12 @@ func (g c19Gen) pointHistory(clean bool) []string {
 			q(v)
 		}
 	}
+	// writes on a dropped cache context must not become readable
+	for i, k := 0, g.n(3); i < k; i++ {
+		t := trip{fams[g.n(3)], name(fa), name(fb), 700 + uint64(g.n(50))}
+		h = append(h, fmt.Sprintf("discard pset %s %s %s %d 09", t.fam, hxs(t.a), hxs(t.b), t.n))
+		q(t)
+	}
 	h = append(h, "ihash commit", "ihash ack", "ihash receipt", "iseq")
 	return h
 }
@@ -1612,6 +2064,57 @@ func TestC19(t *testing.T) {
 			r.Count("bypath.hist.dirty")
 		}
 		run(g.bypathHistory(clean))
+	}
+	// 7. aliasing: two keys of every builder alive at once
+	{
+		names := make([]string, 0, len(c19KeyFuncs))
+		for n := range c19KeyFuncs {
+			names = append(names, n)
+		}
+		sort.Strings(names)
+		for i := 0; i < 12*scale; i++ {
+			for _, fn := range names {
+				run([]string{g.key2Op(fn)})
+				w.hist = nil
+			}
+		}
+	}
+	// 8. height text / binary forms through builder and parser
+	for i := 0; i < 250*scale; i++ {
+		rv, hv := g.u64(), g.u64()
+		if g.n(3) == 0 {
+			rv = 0
+		}
+		run([]string{fmt.Sprintf("heightstr %d %d", rv, hv)})
+		w.hist = nil
+		run([]string{fmt.Sprintf("iterkeyrt %s %d %d", []string{"tm", "bsc", "eth"}[g.n(3)], rv, hv)})
+		w.hist = nil
+		if g.n(3) == 0 {
+			txt := []string{"", "1", "1-2-3", "-1-2", "1--2", "0x1-2", "18446744073709551616-1", "01-002", "1-", "-", " 1-2", "1-2 ", "１-2", "1_0-2", "+1-2",
+				fmt.Sprintf("%d-%d", rv, hv), fmt.Sprintf("%d-%d", int64(rv), int64(hv))}[g.n(17)]
+			run([]string{"parseheight " + hxs(txt)})
+			w.hist = nil
+		}
+		if g.n(3) == 0 {
+			hb := make([]byte, 16)
+			binary.BigEndian.PutUint64(hb, rv)
+			binary.BigEndian.PutUint64(hb[8:], hv)
+			pre := []string{"iterateConsensusStates", "consensusStates/", "consensusStates", "x", ""}[g.n(5)]
+			k := append([]byte(pre), hb[:[]int{16, 16, 16, 15, 8, 7, 0}[g.n(7)]]...)
+			if g.n(4) == 0 {
+				k = append(k, "tail"...)
+			}
+			run([]string{"hfk " + []string{"tm", "bsc", "eth"}[g.n(3)] + " " + hx(k)})
+			w.hist = nil
+		}
+	}
+	for i := 0; i < 50*scale; i++ {
+		run(g.heightHistory(g.n(5) < 4))
+	}
+	// 9. names ending in every character the identifier rule allows
+	for i := 0; i < 40*scale; i++ {
+		r.Count("endnames.hist")
+		run(g.endNameHistory())
 	}
 	// 6. point read-back (Get* / Has* after Set*) over names that differ only in case
 	for i := 0; i < 60*scale; i++ {
